@@ -184,11 +184,11 @@ func (e *eng) envCase(r layRow, i int) {
 		fmt.Fprintf(&y, "      env:\n        X: %s\n", yq(v(5)))
 	}
 	_ = ioutil.WriteFile(filepath.Join(d, "tasks.yaml"), []byte(y.String()), 0o644)
-	extra := []string{"UNTOUCHED=passthrough", "X="}
+	extra := []string{"UNTOUCHED=pass=through=x", "X="}
 	if r.has(1) {
-		extra = []string{"UNTOUCHED=passthrough", "X=" + v(1)}
+		extra = []string{"UNTOUCHED=pass=through=x", "X=" + v(1)}
 	} else {
-		extra = []string{"UNTOUCHED=passthrough"}
+		extra = []string{"UNTOUCHED=pass=through=x"}
 	}
 	target := "t"
 	if r.Mode == "stage" {
@@ -220,16 +220,16 @@ func (e *eng) envCase(r layRow, i int) {
 			wantLater = fmt.Sprintf("v%d", r.Later)
 		}
 		obs2, _ := find(res.Stdout, "OBS2 ")
-		if w2 := fmt.Sprintf("X=[%s] T=[t] U=[passthrough]", wantLater); obs2 != w2 {
+		if w2 := fmt.Sprintf("X=[%s] T=[t] U=[pass=through=x]", wantLater); obs2 != w2 {
 			add("value-of-an-earlier-variation-visible", fmt.Sprintf("in the second variation (which does not define X) the command saw %q, model %q", obs2, w2))
 		}
 	}
-	wantLine := fmt.Sprintf("X=[%s] T=[t] U=[passthrough]", want)
+	wantLine := fmt.Sprintf("X=[%s] T=[t] U=[pass=through=x]", want)
 	if obs != wantLine {
 		kind := "wrong-level-wins"
 		if !strings.Contains(obs, "T=[t]") {
 			kind = "task-name-missing"
-		} else if !strings.Contains(obs, "U=[passthrough]") {
+		} else if !strings.Contains(obs, "U=[pass=through=x]") {
 			kind = "parent-variable-not-passed-through"
 		}
 		add(kind, fmt.Sprintf("command saw %q, model %q", obs, wantLine))
